@@ -256,6 +256,29 @@ theorem queue_drains_partial (s : State) :
     | none => simp [hview] at hv
     | some p => simp [deq, hi, hq, hview, State.pend]
 
+/-- **preference_only_set_by_engine** — no call other than `SetPreference` (and no accepter step) changes
+the VM's preference; in particular `Accept`/`setLastAccepted` does not reset it to the accepted
+block (normal operation; `StartStateSync`/`FinishStateSync` are only tied, not proved). -/
+theorem preference_only_set_by_engine (s : State) (op : Op)
+    (hn : (match op with | .start _ | .finish _ _ | .pref _ => false | _ => true) = true) :
+    (step s op).1.preferred = s.preferred :=
+  preferred_stable s op hn
+
+/-- `BuildBlock` hands the inner chain the Output of the block `GetBlock(preference)` returns, and
+`ConsensusIndex.GetPreferredBlock` reports the same block's Output -/
+theorem build_uses_preference (s : State) (n : Nat) (c : Option Nat) (p : Obj)
+    (hp : s.view (s.getBlock s.preferred) = some p) :
+    (∃ r, (build s n c).1.log = s.log ++ [.cBuild p.out r]) ∧
+    (∀ o, p.verified = true → p.out = some o → ciPref s = .out o) := by
+  refine ⟨?_, ?_⟩
+  · unfold HyperModel.Snow.build
+    simp only [hp]
+    split
+    · exact ⟨none, rfl⟩
+    · rename_i b o _; exact ⟨some o, rfl⟩
+  · intro o hv ho
+    simp [ciPref, hp, hv, ho]
+
 /-! non-vacuity: a concrete EngineOK run (build, verify, fork, accept, reject, process) -/
 def demoOps : List Op :=
   [.build 101 none, .verify 1 none, .parse ⟨102, 100, 1, false, none⟩, .verify 2 none, .accept 2, .deq, .reject 1, .fin, .last]
